@@ -5,6 +5,7 @@ import (
 	"os"
 	"path/filepath"
 	"runtime"
+	"sync"
 	"syscall"
 	"sync/atomic"
 	"testing"
@@ -30,6 +31,16 @@ type C17Case struct {
 	EM      int       `json:"em"`
 	Ops     []C17Op   `json:"ops"`
 	Storm   *C17Storm `json:"storm,omitempty"`
+	// Hammer: Clients goroutines issue Reqs short ungated requests each (the free lists are
+	// popped and refilled as fast as the pool can), then max requests must still be able to
+	// be inside their rule together.
+	Hammer *C17Hammer `json:"hammer,omitempty"`
+}
+
+type C17Hammer struct {
+	Clients int `json:"clients"`
+	Reqs    int `json:"reqs"`
+	Salt    int `json:"salt"`
 }
 
 // C17Storm is a chain of hand-overs on a saturated pool: max-1 requests stay inside their rule
@@ -108,7 +119,7 @@ end
 func init() {
 	register(&Prop{
 		ID:   "C17",
-		Rule: "request histories on pools of size (1,2),(1,3),(2,3),(2,4),(3,6): start request (healthy / rule error / panicking injected function / type fault outside the self-recovering constructs / missing name / store into a nil map / wrong key kind / out-of-range element store and read / a request with a nil data map (kind 11, fails on the missing names without parking) / a failing child of the conc block in which every request parks (kind 10) / a healthy request that injects its own function, map and slice under names and Go types of values the pool was constructed with; every request also binds a local and writes its own map and slice) through any of the 24 pool execute methods, release the k-th outstanding request; up to max+4 outstanding, every request parks inside its rule on a Hold gate keyed by its id; oracle after every step: the number of requests parked inside rules equals min(max, outstanding) within the bound (waiters proceed, nothing lost) and never exceeds max, every finished request returned its own id (two in-flight requests on one instance would overwrite each other's injected object), a request never fails because the pool is busy, and after the history max requests park simultaneously again. 8% of the cases (2% in the thorough tier) are hand-over storms instead: max-1 requests stay inside their rule, the last instance is passed along a chain of 100-800 (thorough 1500) requests, each issued a generated number of spin iterations after its predecessor is let go (at most four storms at a time across the shard processes); every next request must enter its rule within the hang bound after the previous one returned and must return its own id. Non-trivial: at some point more than max requests are outstanding and a failing or panicking request finished before the final probe, or a storm of >= 300 hand-overs; distinct by case hash",
+		Rule: "request histories on pools of size (1,2),(1,3),(2,3),(2,4),(3,6): start request (healthy / rule error / panicking injected function / type fault outside the self-recovering constructs / missing name / store into a nil map / wrong key kind / out-of-range element store and read / a request with a nil data map (kind 11, fails on the missing names without parking) / a failing child of the conc block in which every request parks (kind 10) / a healthy request that injects its own function, map and slice under names and Go types of values the pool was constructed with; every request also binds a local and writes its own map and slice) through any of the 24 pool execute methods, release the k-th outstanding request; up to max+4 outstanding, every request parks inside its rule on a Hold gate keyed by its id; oracle after every step: the number of requests parked inside rules equals min(max, outstanding) within the bound (waiters proceed, nothing lost) and never exceeds max, every finished request returned its own id (two in-flight requests on one instance would overwrite each other's injected object), a request never fails because the pool is busy, and after the history max requests park simultaneously again. 8% of the cases (2% in the thorough tier) are hand-over storms instead: max-1 requests stay inside their rule, the last instance is passed along a chain of 100-800 (thorough 1500) requests, each issued a generated number of spin iterations after its predecessor is let go (at most four storms at a time across the shard processes); every next request must enter its rule within the hang bound after the previous one returned and must return its own id. 3% of the cases are hammers: 4-32 clients issue 100-600 (thorough 1500) short ungated requests each, at most max may be inside a rule at any time, every request returns its own id, and afterwards max requests must be inside their rule together. Non-trivial: at some point more than max requests are outstanding and a failing or panicking request finished before the final probe, or a storm of >= 300 hand-overs; distinct by case hash",
 		New:  func() interface{} { return &C17Case{} },
 		Gen: func(t *rapid.T) interface{} {
 			c := &C17Case{}
@@ -116,6 +127,17 @@ func init() {
 			s := sizes[uni(t, "pool_size", 0, len(sizes)-1)]
 			c.PoolMin, c.PoolMax = s[0], s[1]
 			c.EM = uni(t, "em", 1, 4)
+			if pct(t, "hammer", 3) {
+				sizes := [][2]int64{{1, 4}, {1, 3}, {2, 4}, {1, 2}}
+				sz := sizes[uni(t, "hammer_size", 0, 3)]
+				c.PoolMin, c.PoolMax = sz[0], sz[1]
+				hi := 600
+				if thorough() {
+					hi = 1500
+				}
+				c.Hammer = &C17Hammer{Clients: uni(t, "hammer_clients", 4, 32), Reqs: uni(t, "hammer_reqs", 100, hi), Salt: uni(t, "hammer_salt", 0, 999)}
+				return c
+			}
 			stormPct := 8
 			if thorough() {
 				// a storm costs about a second of wall time under load and only four run at a time
@@ -156,6 +178,10 @@ func init() {
 			c := ci.(*C17Case)
 			if c.Storm != nil {
 				checkC17Storm(c, x)
+				return
+			}
+			if c.Hammer != nil {
+				checkC17Hammer(c, x)
 				return
 			}
 			h := newPoolHarness()
@@ -502,6 +528,124 @@ func checkC17Storm(c *C17Case, x *Ctx) {
 	x.Class("storm-completed")
 	if st.N >= 300 {
 		x.NonTrivial()
+	}
+}
+
+func checkC17Hammer(c *C17Case, x *Ctx) {
+	hm := c.Hammer
+	defer c17StormSlot()()
+	var inflight, maxIn int64
+	const probeBase = int64(1) << 40
+	probe := make([]c17Slot, c.PoolMax)
+	apis := map[string]interface{}{"hold": func(id int64) {
+		n := atomic.AddInt64(&inflight, 1)
+		for {
+			old := atomic.LoadInt64(&maxIn)
+			if n <= old || atomic.CompareAndSwapInt64(&maxIn, old, n) {
+				break
+			}
+		}
+		if id >= probeBase {
+			s := &probe[id-probeBase]
+			atomic.StoreInt32(&s.entered, 1)
+			for atomic.LoadInt32(&s.release) == 0 {
+				time.Sleep(50 * time.Microsecond)
+			}
+		} else {
+			for i := int64(0); i < id%3; i++ {
+				runtime.Gosched()
+			}
+		}
+		atomic.AddInt64(&inflight, -1)
+	}}
+	p, err := engine.NewGenginePool(c.PoolMin, c.PoolMax, c.EM, c17StormRules, apis)
+	if err != nil {
+		x.Violation("setup", "NewGenginePool: %v", err)
+		return
+	}
+	x.Class("hammer")
+	x.NonTrivial()
+	methods := gx.MethodNames(true)
+	errs := make(chan string, hm.Clients)
+	done := make(chan struct{})
+	var wg sync.WaitGroup
+	for cl := 0; cl < hm.Clients; cl++ {
+		wg.Add(1)
+		go func(cl int) {
+			defer wg.Done()
+			name := methods[(cl+hm.Salt)%len(methods)]
+			if name == "ExecuteRulesWithSpecifiedEM" {
+				name = "Execute"
+			}
+			call := fullCall(name, []string{"hold", "aux"}, cl)
+			for k := 0; k < hm.Reqs; k++ {
+				id := int64(cl*100000 + k + 1)
+				res := gx.OnPool(p, call, map[string]interface{}{"who": &Payload{Id: id}}, &engine.Stag{})
+				if res.Panic != "" || res.Err != nil || fmt.Sprint(res.Map["hold"]) != fmt.Sprint(id) {
+					select {
+					case errs <- fmt.Sprintf("request %d (%s) returned err=%v panic=%q result=%v", id, call.Method, res.Err, truncate(res.Panic, 200), sortedMap(res.Map)):
+					default:
+					}
+					return
+				}
+			}
+		}(cl)
+	}
+	go func() { wg.Wait(); close(done) }()
+	select {
+	case <-done:
+	case <-time.After(3 * hangBound()):
+		for i := range probe {
+			atomic.StoreInt32(&probe[i].release, 1)
+		}
+		x.Violation("hammer-stuck", "%d clients x %d short requests on a pool (%d,%d) did not finish within %v: requests wait although instances must be free", hm.Clients, hm.Reqs, c.PoolMin, c.PoolMax, 3*hangBound())
+		return
+	}
+	select {
+	case m := <-errs:
+		x.Violation("hammer-result", "%s", m)
+		return
+	default:
+	}
+	if atomic.LoadInt64(&maxIn) > c.PoolMax {
+		x.Violation("over-capacity", "%d requests were inside rules simultaneously on a pool of max %d", maxIn, c.PoolMax)
+		return
+	}
+	// the pool can still serve max simultaneous requests
+	pdone := make(chan gx.Result, c.PoolMax)
+	for i := int64(0); i < c.PoolMax; i++ {
+		go func(i int64) {
+			pdone <- gx.OnPool(p, fullCall("Execute", []string{"hold", "aux"}, 0), map[string]interface{}{"who": &Payload{Id: probeBase + i}}, &engine.Stag{})
+		}(i)
+	}
+	ok := true
+	for i := range probe {
+		if !c17Await(&probe[i].entered, x) {
+			ok = false
+			break
+		}
+	}
+	for i := range probe {
+		atomic.StoreInt32(&probe[i].release, 1)
+	}
+	if !ok {
+		x.Violation("capacity-lost", "after %d clients x %d short requests, fewer than max=%d requests can be inside their rule together: instances were lost", hm.Clients, hm.Reqs, c.PoolMax)
+		return
+	}
+	for i := int64(0); i < c.PoolMax; i++ {
+		select {
+		case r := <-pdone:
+			if r.Panic != "" || r.Err != nil {
+				x.Violation("hammer-result", "probe request returned err=%v panic=%q", r.Err, truncate(r.Panic, 200))
+				return
+			}
+		case <-time.After(hangBound()):
+			x.Violation("hammer-stuck", "a probe request did not return after it was let go")
+			return
+		}
+	}
+	if atomic.LoadInt64(&maxIn) > c.PoolMax {
+		x.Violation("over-capacity", "%d requests were inside rules simultaneously on a pool of max %d", maxIn, c.PoolMax)
 	}
 }
 
